@@ -228,7 +228,7 @@ def run(ctx):
         if r.violated != inv:
             raise tlcmod.MachineryError("vacuity witness %s not refuted" % inv)
     # ---- spec -> code: histories ---------------------------------------------------------------------------------
-    nsim = 260 if q else 3000
+    nsim = 260 if q else 1200
     s = ctx.tlc("SampleListFS", CFG % (3 if q else 4, 2 if q else 4, 5, "TRUE", "TRUE") + "INVARIANT Faithful\nINVARIANT Emit\nCHECK_DEADLOCK FALSE\n",
                 label="simulate %d histories of 5 ops" % nsim, workers=1, simulate=nsim, depth=6, seed=ctx.seed + 26, timeout=1700)
     e2 = ctx.tlc("SampleListFS", CFG % (2, 2, 2, "TRUE", "TRUE") + "INVARIANT Faithful\nINVARIANT Emit\nCHECK_DEADLOCK FALSE\n", label="emit all histories of 2 ops", workers=1)
@@ -238,6 +238,8 @@ def run(ctx):
     hists = [d["hist"] for d in s.emitted] + [d["hist"] for d in e2.emitted if any(x["op"] == "load" for x in d["hist"])]
     hists += [d["hist"] for d in e3.emitted if d["hist"][-1]["op"] == "load" and d["hist"][1]["op"] == "save"
               and (not q or d["hist"][1]["n"] < d["hist"][0]["n"])]
+    if not q:
+        hists = hists[:1300] + hists[1300:][ctx.seed % 3::3]          # every third of the (many) three-step overwrite histories
     if len(hists) < 50:
         raise tlcmod.MachineryError("too few histories emitted (%d)" % len(hists))
     root = os.path.join(tlcmod.RUNROOT, "C26-%d" % os.getpid())
